@@ -148,7 +148,7 @@ def tweak(t, rng, tg):
             if rng.random() < 0.3:
                 x[8].append(impl.T("electronicMailAddress", rng.choice(["x@y.z", ""])))
         elif nm == "individualName" and rng.random() < 0.6:
-            x[8] = [impl.T("givenName", rng.choice(["G", "", None]))] * rng.choice([0, 1]) + [impl.T("surName", rng.choice(["S", ""]))]
+            x[8] = [impl.T("givenName", rng.choice(["G", "", None])) for _ in range(rng.choice([0, 1, 1, 2, 3]))] + [impl.T("surName", rng.choice(["S", ""]))]
         elif nm == "description" and rng.random() < 0.6:
             x[2] = rng.choice([None, "", "text"]); x[8] = [impl.T("para", rng.choice([None, "", "p"]))] if rng.random() < 0.5 else []
         elif nm == "physical" and rng.random() < 0.5:
